@@ -453,10 +453,23 @@ func (self Node) GetByPath(pathes ...Path) Node {
 	var err error
 
 	for i, path := range pathes {
+		// the kind of path must fit the type of the value at this level
+		fit := true
+		switch path.t {
+		case PathFieldId:
+			fit = tt == thrift.STRUCT
+		case PathIndex:
+			fit = tt == thrift.LIST || tt == thrift.SET
+			isList = tt == thrift.LIST
+		case PathStrKey, PathIntKey, PathBinKey:
+			fit = tt == thrift.MAP
+		}
+		if !fit {
+			return errNode(meta.ErrUnsupportedType, fmt.Sprintf("%dth path %s doesn't match type %s", i, path, tt), nil)
+		}
 		switch path.t {
 		case PathFieldId:
 			tt, start, err = searchFieldId(&p, path.id())
-			isList = self.t == thrift.LIST
 		case PathFieldName:
 			return errNode(meta.ErrUnsupportedType, "", nil)
 		case PathIndex:
